@@ -155,6 +155,8 @@ pub fn bfs(ctx: &Ctx, oracle: &dyn Oracle, starts: &[Start], depth: usize) -> Bf
                         return (st, succ);
                     };
                     let ops = oracle.ops(&w, &f, d);
+                    watch_phase(&format!("bfs start={} depth={} history={:?}", start.name, d + 1, hist));
+                    watch_begin(*lo as u64, *hi_end as u64);
                     for op in ops[*lo..*hi_end].iter().cloned() {
                         let (v, post, post_forest) = run_step(oracle, &w, &f, &op, &mut st);
                         st.bump("transitions");
@@ -183,6 +185,7 @@ pub fn bfs(ctx: &Ctx, oracle: &dyn Oracle, starts: &[Start], depth: usize) -> Bf
                             st.sample(|| serde_json::json!({"start": start.name, "history": format!("{:?}", hist), "state": pre_show, "op": format!("{:?}", op)}));
                         }
                     }
+                    watch_end();
                     (st, succ)
                 })
                 .collect();
